@@ -43,20 +43,52 @@ func c20PutVar(call *ast.CallExpr) string {
 }
 
 type c20Path struct {
-	counts map[string]int
-	defers []ast.Node // *ast.CallExpr (direct put) or *ast.BlockStmt (deferred closure body), in order of registration
+	counts   map[string]int
+	defers   []ast.Node      // *ast.CallExpr (direct put) or *ast.BlockStmt (deferred closure body), in order of registration
+	returned map[string]bool // variables a result of the return statement that ended the path is read out of
+}
+
+// c20RootIdent: the identifier a value is read out of (selectors, indexing, slicing, method
+// calls on it, address-of, dereference); "" for anything else (results of functions that
+// merely take the variable as an argument are values of their own).
+func c20RootIdent(e ast.Expr) string {
+	switch x := e.(type) {
+	case *ast.Ident:
+		return x.Name
+	case *ast.SelectorExpr:
+		return c20RootIdent(x.X)
+	case *ast.IndexExpr:
+		return c20RootIdent(x.X)
+	case *ast.SliceExpr:
+		return c20RootIdent(x.X)
+	case *ast.ParenExpr:
+		return c20RootIdent(x.X)
+	case *ast.StarExpr:
+		return c20RootIdent(x.X)
+	case *ast.UnaryExpr:
+		return c20RootIdent(x.X)
+	case *ast.CallExpr:
+		if sel, ok := x.Fun.(*ast.SelectorExpr); ok {
+			return c20RootIdent(sel.X)
+		}
+	}
+	return ""
 }
 
 func (p c20Path) clone() c20Path {
-	q := c20Path{counts: map[string]int{}, defers: append([]ast.Node(nil), p.defers...)}
+	q := c20Path{counts: map[string]int{}, defers: append([]ast.Node(nil), p.defers...), returned: map[string]bool{}}
 	for k, v := range p.counts {
 		q.counts[k] = v
+	}
+	for k := range p.returned {
+		q.returned[k] = true
 	}
 	return q
 }
 
 type c20Analysis struct {
 	fn      string
+	escapes map[string]bool   // var put into its pool on a path whose return statement still mentions it
 	results map[string][2]int // var -> (min, max) over finished paths
 	subs    []c20Sub          // closures and loop bodies analysed on their own
 	nsub    int
@@ -73,6 +105,12 @@ const c20MaxPaths = 20000
 func (a *c20Analysis) finish(p c20Path, seen map[string]bool) {
 	for v := range seen {
 		c := p.counts[v]
+		if c > 0 && p.returned[v] {
+			if a.escapes == nil {
+				a.escapes = map[string]bool{}
+			}
+			a.escapes[v] = true
+		}
 		if r, ok := a.results[v]; ok {
 			if c < r[0] {
 				r[0] = c
@@ -204,6 +242,13 @@ func (a *c20Analysis) stmt(st ast.Stmt, p c20Path, seen map[string]bool, inLoop 
 	case *ast.ReturnStmt:
 		for _, r := range x.Results {
 			a.funcLits(r)
+			// the variable the returned value is rooted in: v, v.F, v.F[i:j], v.M(), &v.F, *v
+			if root := c20RootIdent(r); root != "" {
+				if p.returned == nil {
+					p.returned = map[string]bool{}
+				}
+				p.returned[root] = true
+			}
 		}
 		return nil, []c20Path{p}
 	case *ast.BranchStmt:
@@ -296,6 +341,7 @@ type c20PutRow struct {
 
 func genC20Puts(repo string) (string, string, error) {
 	var rows []c20PutRow
+	var escapes [][2]string
 	truncated := 0
 	for _, dir := range c20PutDirs {
 		full := filepath.Join(repo, dir)
@@ -348,6 +394,9 @@ func genC20Puts(repo string) (string, string, error) {
 						sort.Strings(vars)
 						for _, v := range vars {
 							rows = append(rows, c20PutRow{u.name, v, a.results[v][0], a.results[v][1]})
+							if a.escapes[v] {
+								escapes = append(escapes, [2]string{u.name, v})
+							}
 						}
 						for _, s := range a.subs {
 							queue = append(queue, unit{s.name, s.body, strings.Contains(s.name[len(u.name):], "loop")})
@@ -377,6 +426,17 @@ func genC20Puts(repo string) (string, string, error) {
 		fmt.Fprintf(&b, "  (%s, %s, %d, %d)%s\n", c20CoqStr(r.Func), c20CoqStr(r.Var), r.Min, r.Max, sep)
 	}
 	b.WriteString("].\n\n")
-	fmt.Fprintf(&b, "(* path sets cut at %d paths during the analysis (0 = every path was followed) *)\nDefinition c20_puts_truncated : nat := %d.\n", c20MaxPaths, truncated)
+	fmt.Fprintf(&b, "(* path sets cut at %d paths during the analysis (0 = every path was followed) *)\nDefinition c20_puts_truncated : nat := %d.\n\n", c20MaxPaths, truncated)
+	sort.Slice(escapes, func(i, j int) bool { return escapes[i][0]+"/"+escapes[i][1] < escapes[j][0]+"/"+escapes[j][1] })
+	b.WriteString("(* (function, variable): some path puts the variable into its pool (deferred calls included) and ends in a\n   return statement one of whose results is read out of it (v, v.F, v.F[i:j], v.M()) - the caller receives (part of) an object the pool may hand\n   to somebody else at once. *)\n")
+	b.WriteString("Definition c20_put_and_returned : list (string * string) := [\n")
+	for i, e := range escapes {
+		sep := ";"
+		if i == len(escapes)-1 {
+			sep = ""
+		}
+		fmt.Fprintf(&b, "  (%s, %s)%s\n", c20CoqStr(e[0]), c20CoqStr(e[1]), sep)
+	}
+	b.WriteString("].\n")
 	return b.String(), "", nil
 }
